@@ -62,9 +62,16 @@ func (c *ClientCodec) Decode(response []byte, context *core.ClientContext) (resu
 			}
 			result = []interface{}{t.Indirect(p)}
 		default:
-			res := resp.Result.([]interface{})
+			res, ok := resp.Result.([]interface{})
+			if !ok {
+				// a single value where several were expected
+				res = []interface{}{resp.Result}
+			}
 			result = make([]interface{}, 0, len(res))
 			for i, r := range res {
+				if i >= n {
+					break
+				}
 				data, _ := c.Codec.Marshal(r)
 				t := reflect2.Type2(context.ReturnType[i])
 				p := t.New()
